@@ -379,8 +379,11 @@ def _sched_batch(items):
 def run(ctx):
     thorough = ctx.tier == "thorough"
     if thorough:
-        configs = [dict(store="Memory", lit=l, sibling=False, binops=True, expand_binops=(l == "Lempty"))
+        # binary operations are terminal (their results are not operated on further) except in the one-subject configuration below: with both
+        # operands kept in the state, expanding them over the whole vocabulary does not finish a level within the time budget
+        configs = [dict(store="Memory", lit=l, sibling=False, binops=True, expand_binops=False)
                    for l in ("Lempty", "L0", "Lfalse", "L0d", "Lempty_en", "Lempty_s", "Lx_en")]
+        configs += [dict(store="Memory", lit=l, binops=True, expand_binops=True, subjects=["A"]) for l in ("L0", "Lempty")]
         configs += [dict(store="SimpleMemory", lit=l, binops=True, expand_binops=False) for l in ("Lempty", "L0", "Lfalse", "Lx_en")]
         configs += [dict(store="Memory", lit="Lempty", sibling=True, binops=False),
                     dict(store="Memory", lit="L0", extra="Lx", binops=False)]
